@@ -229,6 +229,26 @@ fn gen_c06(tier: &str, rng: &mut Rng) -> Vec<Case> {
         }
         cases.push(c);
     }
+    // a spanning cell whose text is at least as long as its span over columns that are otherwise
+    // empty: every one of those columns has a positive share, so nothing may vanish when the table
+    // is not squeezed
+    let nw = if tier == "thorough" { 20000 } else { 1500 };
+    for k in 0..nw {
+        let span = rng.range(2, 6);
+        let tlen = rng.range(span, 3 * span);
+        let tok: String = "abcdefghijklmnopqrstuvwx".chars().take(tlen).collect();
+        let empties: String = (0..span).map(|_| "<td></td>").collect();
+        let (r0, s0) = (format!("<tr><td colspan=\"{}\">{}</td><td>z{}z</td></tr>", span, tok, k), format!("{}:{},1:z{}z", span, tok, k));
+        let (r1, s1) = (format!("<tr>{}<td>y{}y</td></tr>", empties, k), format!("{},1:y{}y", vec!["1:"; span].join(","), k));
+        let (html, strs) = if rng.chance(1, 2) { (format!("<table>{}{}</table>", r0, r1), vec![s0, s1]) } else { (format!("<table>{}{}</table>", r1, r0), vec![s1, s0]) };
+        let natural = tlen + 8 + span;
+        let mut cfg = Cfg { deco: 1, ..Default::default() };
+        if rng.chance(1, 3) {
+            cfg.min_wrap = Some(rng.range(1, 3));
+        }
+        let id = cases.len();
+        cases.push(mk_case(id, 0, cfg, natural + 2 + rng.below(40), html.into_bytes(), Some(0), Meta::G { role: "table", strs, nums: vec![0] }, "wide_span_over_empty"));
+    }
     // every row tiles the same N columns with spanning cells only (no column has a cell of its
     // own): at narrow widths each column still gets its share
     let ns = if tier == "thorough" { 20000 } else { 1500 };
@@ -383,8 +403,8 @@ fn check_c05(cases: &[Case], results: &[Option<RunResult>]) -> Vec<Violation> {
             }
         }
         let has_span = layout.iter().any(|row| row.iter().any(|x| x.0 > 1));
-        let zero_col_under_span = has_span && col_has_single.iter().any(|b| !*b);
-        let known = if zero_col_under_span { Some("zero_width_column_under_colspan") } else { None };
+        let _ = (has_span, &col_has_single);
+        let known = if colspan_zero_class(&dom_of(r), c.spec.width) { Some("zero_width_column_under_colspan") } else { None };
         // local junction consistency everywhere (also inside nested tables)
         let at = |y: isize, x: usize| -> char {
             if y < 0 || y as usize >= g.len() {
@@ -503,7 +523,7 @@ fn check_c06(cases: &[Case], results: &[Option<RunResult>]) -> Vec<Violation> {
                     };
                     // (the recorded class of C05 shows here too: a column that got width 0 under a
                     // colspan makes that row one separator wider)
-                    let known6 = if zero_col_under_span(&layout) { Some("zero_width_column_under_colspan") } else { None };
+                    let known6 = if results[i].as_ref().map(|r| colspan_zero_class(&dom_of(r), c.spec.width)).unwrap_or(false) { Some("zero_width_column_under_colspan") } else { None };
                     let mut col_x: HashMap<usize, (usize, String)> = HashMap::new();
                     'rows: for row in &layout {
                         let mut cidx = 0;
@@ -685,13 +705,35 @@ fn gen_c07(tier: &str, rng: &mut Rng) -> Vec<Case> {
                 continue;
             }
         };
-        let (pf, pr) = if deco == 3 {
+        let (mut pf, mut pr) = if deco == 3 {
             if kind == 3 { ("  ".to_string(), "  ".to_string()) } else { (String::new(), String::new()) }
         } else {
             (prefix_first, prefix_rest)
         };
         let w = rng.range(4, 100);
-        let cfg = Cfg { deco, footnotes: 2, ..Default::default() };
+        let mut cfg = Cfg { deco, footnotes: 2, ..Default::default() };
+        // one in five: a decorator of the custom family (bullets and quote marks of one, two or
+        // three columns, some of them a single wide character): the indentation of later lines is
+        // the DISPLAY width of the marker
+        if kind <= 2 && rng.chance(1, 5) {
+            let custom = rand_custom(rng);
+            match kind {
+                0 => {
+                    pf = custom[14].clone();
+                    pr = " ".repeat(str_width(&custom[14]));
+                }
+                1 => {
+                    pf = custom[13].clone();
+                    pr = custom[13].clone();
+                }
+                _ => {
+                    pf = format!("{}{}", start, custom[15]);
+                    pr = " ".repeat(str_width(&pf));
+                }
+            }
+            cfg.deco = 4;
+            cfg.custom = custom;
+        }
         let id = cases.len();
         let mut c1 = mk_case(id, 0, cfg.clone(), w, outer.into_bytes(), Some(0), Meta::G { role: "outer", strs: vec![pf.clone(), pr], nums: vec![] }, ["ul", "blockquote", "ol", "dd", "h", "h"][kind]);
         c1.group = gi;
